@@ -64,6 +64,10 @@ type world struct {
 	seed    uint64
 	calls   []getterCall
 	tc      int
+	// several resolutions of one connection field in one request (multi.go): data set and recorded
+	// getter calls per resolution
+	multi      [][]TEdge
+	multiCalls [][]getterCall
 }
 
 // getterReply implements the EdgeGetter contract: only edges with min ≤ time ≤ max; all of them for
@@ -209,6 +213,7 @@ func newWorld() *world {
 			return len(w.D), nil
 		},
 	}))
+	w.addMultiFields(cfg)
 	api, err := apifu.NewAPI(cfg)
 	if err != nil {
 		panic(err)
@@ -244,6 +249,11 @@ type TReq struct {
 	SelPI         bool   `json:"sel_page_info"`
 	SelTC         bool   `json:"sel_total_count"`
 	Vars          bool   `json:"vars"`
+	// NullMask: which of the ABSENT arguments are spelled as an explicit null (a literal `null`, or with
+	// Vars a variable whose value is sent as null — the `first: $first, last: $last` pattern of clients
+	// with one bidirectional query); bit 0 first, 1 last, 2 after, 3 before, 4 atOrAfterTime, 5 beforeTime.
+	// null means absent (the Relay reference and the property's "filter the client supplied").
+	NullMask int `json:"null_mask,omitempty"`
 }
 
 type servedEdge struct {
@@ -303,7 +313,67 @@ func farBound(text string) *int64 {
 
 func rfc3339(ns int64) string { return timeOf(ns).Format(time.RFC3339Nano) }
 
-func (r TReq) build() (query string, vars map[string]any) {
+// argList renders the arguments (literal spelling, or variables with Vars — the variable names get
+// the given suffix so that several connections can share one operation).
+func (r TReq) argList(suffix string) (args, decls []string, vars map[string]any) {
+	vars = map[string]any{}
+	add := func(bit int, name, typ string, present bool, lit string, val any) {
+		if !present && r.NullMask&(1<<bit) == 0 {
+			return
+		}
+		if r.Vars {
+			decls = append(decls, "$"+name+suffix+": "+typ)
+			args = append(args, name+": $"+name+suffix)
+			if present {
+				vars[name+suffix] = val
+			} else {
+				vars[name+suffix] = nil
+			}
+			return
+		}
+		if !present {
+			lit = "null"
+		}
+		args = append(args, name+": "+lit)
+	}
+	if r.First != nil {
+		add(0, "first", "Int", true, strconv.Itoa(*r.First), *r.First)
+	} else {
+		add(0, "first", "Int", false, "", nil)
+	}
+	if r.Last != nil {
+		add(1, "last", "Int", true, strconv.Itoa(*r.Last), *r.Last)
+	} else {
+		add(1, "last", "Int", false, "", nil)
+	}
+	if r.After != nil {
+		add(2, "after", "String", true, gqlString(r.After.S), r.After.S)
+	} else {
+		add(2, "after", "String", false, "", nil)
+	}
+	if r.Before != nil {
+		add(3, "before", "String", true, gqlString(r.Before.S), r.Before.S)
+	} else {
+		add(3, "before", "String", false, "", nil)
+	}
+	if r.AtOrAfterText != "" {
+		add(4, "atOrAfterTime", "DateTime", true, gqlString(r.AtOrAfterText), r.AtOrAfterText)
+	} else if r.AtOrAfter != nil {
+		add(4, "atOrAfterTime", "DateTime", true, gqlString(rfc3339(*r.AtOrAfter)), rfc3339(*r.AtOrAfter))
+	} else {
+		add(4, "atOrAfterTime", "DateTime", false, "", nil)
+	}
+	if r.BeforeText != "" {
+		add(5, "beforeTime", "DateTime", true, gqlString(r.BeforeText), r.BeforeText)
+	} else if r.BeforeT != nil {
+		add(5, "beforeTime", "DateTime", true, gqlString(rfc3339(*r.BeforeT)), rfc3339(*r.BeforeT))
+	} else {
+		add(5, "beforeTime", "DateTime", false, "", nil)
+	}
+	return args, decls, vars
+}
+
+func (r TReq) selection() string {
 	sel := "edges { cursor node }"
 	if r.SelPI {
 		sel += " pageInfo { hasPreviousPage hasNextPage startCursor endCursor }"
@@ -311,39 +381,11 @@ func (r TReq) build() (query string, vars map[string]any) {
 	if r.SelTC {
 		sel += " totalCount"
 	}
-	var args, decls []string
-	vars = map[string]any{}
-	add := func(name, typ string, lit string, val any) {
-		if r.Vars {
-			decls = append(decls, "$"+name+": "+typ)
-			args = append(args, name+": $"+name)
-			vars[name] = val
-			return
-		}
-		args = append(args, name+": "+lit)
-	}
-	if r.First != nil {
-		add("first", "Int", strconv.Itoa(*r.First), *r.First)
-	}
-	if r.Last != nil {
-		add("last", "Int", strconv.Itoa(*r.Last), *r.Last)
-	}
-	if r.After != nil {
-		add("after", "String", gqlString(r.After.S), r.After.S)
-	}
-	if r.Before != nil {
-		add("before", "String", gqlString(r.Before.S), r.Before.S)
-	}
-	if r.AtOrAfterText != "" {
-		add("atOrAfterTime", "DateTime", gqlString(r.AtOrAfterText), r.AtOrAfterText)
-	} else if r.AtOrAfter != nil {
-		add("atOrAfterTime", "DateTime", gqlString(rfc3339(*r.AtOrAfter)), rfc3339(*r.AtOrAfter))
-	}
-	if r.BeforeText != "" {
-		add("beforeTime", "DateTime", gqlString(r.BeforeText), r.BeforeText)
-	} else if r.BeforeT != nil {
-		add("beforeTime", "DateTime", gqlString(rfc3339(*r.BeforeT)), rfc3339(*r.BeforeT))
-	}
+	return sel
+}
+
+func (r TReq) build() (query string, vars map[string]any) {
+	args, decls, vars := r.argList("")
 	q := "query"
 	if len(decls) > 0 {
 		q += "(" + strings.Join(decls, ", ") + ")"
@@ -352,7 +394,7 @@ func (r TReq) build() (query string, vars map[string]any) {
 	if len(args) > 0 {
 		q += "(" + strings.Join(args, ", ") + ")"
 	}
-	q += " { " + sel + " } }"
+	q += " { " + r.selection() + " } }"
 	return q, vars
 }
 
